@@ -10,6 +10,8 @@ import DispatchVerif.Core.DataP
 import DispatchVerif.Core.TimerP
 import DispatchVerif.Core.IoP4
 import Driver.HeapChk
+import Driver.LaneChk
+import Driver.RootChk
 /-! `dvdriver`: line-protocol driver over the Lean models — the same definitions the theorems are about.
     One operation per line in, one canonical result per line out; the C harnesses answer the same lines with
     the real library and the check diffs the two streams. -/
@@ -227,4 +229,6 @@ partial def loop (h : IO.FS.Stream) (out : IO.FS.Stream) : IO Unit := do
 def main (args : List String) : IO UInt32 := do
   match args with
   | ["heap", path] => HeapChk.main path
+  | "lane" :: paths => LaneChk.main paths
+  | "root" :: paths => RootChk.main paths
   | _ => loop (← IO.getStdin) (← IO.getStdout); return 0
